@@ -30,8 +30,9 @@ ASSUMPTIONS = [
     'rejections may surface at construction (DictDatabase) or at the first data access (JsonDatabase)',
 ]
 N = {'quick': 800, 'thorough': 2500}
-DS_NAMES = ['train', 'dev', 'test', 'extra']
-AL_NAMES = ['all', 'mix', 'train']  # 'train' collides with a dataset name on purpose (across parts only)
+# names may contain any character: 'train+dev' is a dataset of its own, not "train and dev"
+DS_NAMES = ['train', 'dev', 'test', 'extra', 'train+dev']
+AL_NAMES = ['all', 'mix', 'train', 'dev+test']  # 'train' collides with a dataset name on purpose (across parts only)
 IDS = ['a', 'b', 'c', 'd', 'e']
 
 
@@ -93,6 +94,11 @@ def same_source(before, after, k):
 def check(case):
     from lazy_dataset import database
     parts = case['parts']
+    if case.get('share_objs'):
+        # examples with the same id are ONE object wherever they occur (datasets carved out of one pool of examples)
+        pool = {}
+        parts = [dict(p, datasets={n: {e: pool.setdefault(e, ex) for e, ex in d.items()}
+                                   for n, d in p['datasets'].items()}) for p in parts]
     backend, form = case['backend'], case['form']
     desc = f'{case}'
     datasets, alias, invalid = model_merge(parts)
@@ -329,9 +335,13 @@ def st_case(draw):
                          draw(st.sampled_from(['list', 'tuple']))])
         else:
             reqs.append(['get', draw(st.sampled_from(names_all)), draw(st.booleans())])
+    if draw(st.integers(0, 3)) == 0:
+        # a name that reads like a list of two other names, held alive, then that list is requested (and back)
+        reqs += [['get', 'train+dev', True], ['get', ['train', 'dev'], 'list'], ['get', 'dev+test', True],
+                 ['get', ['dev', 'test'], 'tuple'], ['get', 'train+dev', False]]
     return {'backend': draw(st.sampled_from(['dict', 'json'])), 'form': draw(st.sampled_from(['varargs', 'list'])),
             'parts': parts, 'requests': reqs, 'second_db': draw(st.integers(0, 3)) == 0,
-            'rewrite': draw(st.integers(0, 2)) == 0}
+            'rewrite': draw(st.integers(0, 2)) == 0, 'share_objs': draw(st.integers(0, 3)) == 0}
 
 
 def run_shard(tier, idx, nshards, rec, known):
